@@ -47,6 +47,8 @@ def scenario_sources(prop, args):
                                       [configs.NOQ, M("SRQ", "a8a", "w8c"), M("SRQ", "a8s", "w8c"), M("SRQ", "a16", "w8c")] if big
                                       else [M("SRQ", "a8a", "w8c"), M("SRQ", "a8s", "w8c"), M("SRQ", "a16", "w8c")],
                                       [configs.NOQ, M("SRQ", "a8a", "w8c")] if big else [configs.NOQ], share="none"),
+        # concatenations with several constant operands (each takes the output's parameters and its own data)
+        "concat3_1op": configs.cfg(1, ["CONCAT3"], [configs.NOQ], [M("SRQ", "a8a", "w8c"), M("SRQ", "a16", "w8c")], [configs.NOQ, M("SRQ", "a8a", "w8c")], share="none"),
         "weights_1op": configs.cfg(1, ["FC", "TCONV", "BMM", "EMB"], configs.MODES_W_RICH + [M("DRQ", "-", "w4c"), M("WO", "-", "w4c"), M("WO", "-", "w4ta"), M("SRQ", "a8a", "w4c")],
                                    [configs.NOQ], configs.IO_RICH, share="none"),
     }
@@ -105,7 +107,13 @@ def main():
   limit = 350 if args.tier == "quick" else 12000
   # prefer scenarios in which something is quantised
   keys = [k for k in keys if any(m["m"] != "NOQ" for ms in dumps[k]["scn"]["mode"] for m in ms)]
-  chosen = common.sample_keep(keys, limit, args.seed)
+  # stratified by scenario family, so that small families (e.g. concatenations of several constants) are never sampled away
+  fams = {}
+  for k in keys:
+    fams.setdefault(dumps[k]["_fam"], []).append(k)
+  chosen = []
+  for fam, ks in sorted(fams.items()):
+    chosen += common.sample_keep(ks, max(80, limit // len(fams)), args.seed)
   t0 = time.time()
   rng = np.random.default_rng(args.seed)
   runs = []
@@ -144,6 +152,11 @@ def main():
       for t, term in enumerate(d["R"][si]["par"]):
         # the term the data was written under (constants) is the last write to the buffer; annotation term otherwise
         exp = numeric.expected(term, ctx)
+        roles = scn["subs"][si]["trole"]
+        if exp["kind"] in ("uniform", "fixed") and "data" not in exp and t < len(roles) and roles[t] in ("c", "w"):
+          # a constant quantised with ANOTHER tensor's parameters (operand of a same-as-output-scale op): its annotation term is
+          # that tensor's, but its bytes must still decode to its own original values
+          exp = dict(exp, data=ctx.const_data([si + 1, t])[0])
         ent = {"si": si, "t": t, "term": term, "exp": exp, "zs": []}
         if exp["kind"] == "uniform":
           ent["zs"] = exp["zs"] = [batch.zs(mn, mx, exp["bits"], exp["sym"]) for mn, mx in exp["ranges"]]
@@ -270,17 +283,19 @@ def main():
     idx[len(runs) + j] = len(obs)
   verdicts, ro = pipecheck.observe_with_tlc("%s_observed" % prop, obs)
   clause = {"C04": "params", "C05": "bytes", "C15": "bytes"}[prop]
+  # C15 "quantized consistently": besides bytes <-> annotation, every sharer's consumer must see the dtype its mode selects
+  extra_clauses = ["modes"] if prop == "C15" else []
   for j, dr in enumerate(drifted):
     v = verdicts.get(idx[len(runs) + j])
-    if v is not None and (not v[clause] or not v["inrange"]):
-      chk.violation("%s false on the observed output of scenario %s (which also left the specification's predicted path)" % (clause, dr["key"]),
+    if v is not None and (not v[clause] or not v["inrange"] or not all(v[c] for c in extra_clauses)):
+      chk.violation("%s false on the observed output of scenario %s (which also left the specification's predicted path)" % ("/".join([clause] + extra_clauses), dr["key"]),
                     {"property": prop, "scenario": dr["scn"], "codes": dr["codes"], "seed": args.seed, "clause": clause, "verdict": v})
   for i, run in enumerate(runs):
     v = verdicts.get(idx[i])
     if v is None:
       chk.machinery("no TLC verdict for %s" % run["key"])
-    elif not v[clause] or not v["inrange"]:
-      chk.violation("%s false on the observed output of scenario %s" % (clause, run["key"]),
+    elif not v[clause] or not v["inrange"] or not all(v[c] for c in extra_clauses):
+      chk.violation("%s false on the observed output of scenario %s" % ("/".join([clause] + extra_clauses), run["key"]),
                     {"property": prop, "scenario": run["scn"], "codes": run["codes"], "seed": args.seed, "clause": clause, "verdict": v})
   if not runs:
     chk.machinery("vacuous: no scenario returned a model")
@@ -298,7 +313,7 @@ def main():
       "exhaustive": False,
   })
   chk.assumptions += ["constants k/8 and statistics on a dyadic grid; scale tolerance 1e-6 relative; zero point exact (either neighbour on an exact tie detected by TLC)",
-                      "decode bound step/2 (symmetric) or step (asymmetric) + step/4096 slack for float rounding of near-ties",
+                      "decode bound step/2 (symmetric) or step (asymmetric) + step/64 slack for float rounding of near-ties",
                       "per-channel min/max of constants computed with numpy (trusted)"]
   return chk.finish()
 
